@@ -7,8 +7,8 @@
     generated function of the slice-biased stream on nil / empty / non-empty
     slices (harness check C16). *)
 From Coq Require Import String.
-From Cvg Require Import Base GoTypes Dump Options Front Builder Gen.
-From Cvg.proofs Require Import BuilderProofs.
+From Cvg Require Import Base GoTypes Dump Options Front Builder Gen ValSem.
+From Cvg.proofs Require Import BuilderProofs ValSemProofs.
 Open Scope N_scope.
 
 (** copy() only between identical basic element types; a plain element loop when
@@ -46,3 +46,21 @@ Theorem C16_block_text :
     s2b "copy(" ++ assign_expr l ++ s2b ", " ++ assign_expr r ++ s2b ")" ++ nl ++ s2b "}" ++ nl.
 Proof. reflexivity. Qed.
 Print Assumptions C16_block_text.
+
+(** Dynamic part, in the value semantics of ValSem.v: executing a slice block
+    on a non-nil source stores a slice whose backing address is the allocation
+    counter's next value (fresh: no earlier object has it), with the source's
+    elements in order (same length); on a nil source the state is left exactly
+    as it was (the destination field keeps its previous value, the counter does
+    not move). *)
+Theorem C16_block_semantics :
+  forall ev conv l r t d next,
+    (exists w, read d (node_path l) = Some w) ->
+    match ev (RNode r) with
+    | VSlice _ es =>
+        read (fst (exec_a ev conv (ASliceLoop l r t) (d, next))) (node_path l) = Some (VSlice next es) /\
+        snd (exec_a ev conv (ASliceLoop l r t) (d, next)) = next + 1
+    | _ => exec_a ev conv (ASliceLoop l r t) (d, next) = (d, next)
+    end.
+Proof. exact slice_block. Qed.
+Print Assumptions C16_block_semantics.
